@@ -173,7 +173,9 @@ def writableStep (env : Env) (st : WritableState) : ScopeEdge → WritableState
     match t.value with
     | .element name =>
       let fs := st.fs.push t.nsDecls
-      let okE := exceptIsOk (fs.elementFullname env name)
+      -- a no-namespace element in the scope of a default namespace is refused (`MissingPrefix("")`)
+      let okE := !(env.nsOfName name == Env.noNamespace && fs.hasDefaultNamespace) &&
+        exceptIsOk (fs.elementFullname env name)
       let okA := (t.attrs.map (·.1)).all (fun n => exceptIsOk (fs.attributeFullname env n))
       { fs := fs, ok := st.ok && okE && okA }
     | _ => st
